@@ -34,12 +34,23 @@ func (s *sanCfg) opts() *tally.SanitizeOptions {
 	if s == nil {
 		return nil
 	}
-	return &tally.SanitizeOptions{
+	o := &tally.SanitizeOptions{
 		NameCharacters:       toValid(s.Name),
 		KeyCharacters:        toValid(s.Key),
 		ValueCharacters:      toValid(s.Value),
 		ReplacementCharacter: s.Rep,
 	}
+	// The three character lists are handed over as adjacent windows of one
+	// backing array with spare capacity behind each (callers build option
+	// structs from shared slices): an append to one of them by the library
+	// would overwrite its neighbour.
+	n, k, v := o.NameCharacters.Characters, o.KeyCharacters.Characters, o.ValueCharacters.Characters
+	all := make([]rune, 0, len(n)+len(k)+len(v)+4)
+	all = append(append(append(all, n...), k...), v...)
+	o.NameCharacters.Characters = all[0:len(n)]
+	o.KeyCharacters.Characters = all[len(n) : len(n)+len(k)]
+	o.ValueCharacters.Characters = all[len(n)+len(k) : len(n)+len(k)+len(v)]
+	return o
 }
 
 func (s *sanCfg) name(x string) string {
